@@ -195,6 +195,22 @@ int main(int argc, char** argv) {
     printf("render_netloc(%s, %u) = %s -> parse_netloc = (%s, %u)\n", show(host).c_str(), port, show(nl).c_str(), show(back.first).c_str(), back.second);
     RCHECK(back.first == host && back.second == port, "netloc round trip");
   }
+  else if (m == "netloc_noport") {
+    // port 0: rendered as the bare host, parsed back as (host, default port) -- for every non-empty colon-free host, also an all-digit one
+    vector<string> hosts = {"7", "8080", "2130706433", "a", "h7", "7h", "example.org"};
+    if (A.arr("in_host").size()) { string h; size_t hl = A.u("in_hlen", 3); for (size_t i = 0; i < hl && i < A.arr("in_host").size(); i++) { char c = (char)A.arr("in_host")[i]; if (c == ':' || c == 0) c = '9'; h += c; } if (!h.empty()) hosts.insert(hosts.begin(), h); }
+    for (const string& host : hosts) {
+      for (int dflt : {0, 443}) {
+        string nl = phosg::render_netloc(host, 0);
+        pair<string, uint16_t> back;
+        bool thrown = false;
+        try { back = phosg::parse_netloc(nl, dflt); } catch (const exception& e) { thrown = true; printf("parse_netloc(%s) threw: %s\n", show(nl).c_str(), e.what()); }
+        RCHECK(!thrown, "parse_netloc raised an exception on a rendered netloc");
+        printf("render_netloc(%s, 0) = %s -> parse_netloc(.., %d) = (%s, %u)\n", show(host).c_str(), show(nl).c_str(), dflt, show(back.first).c_str(), back.second);
+        RCHECK(back.first == host && back.second == (uint16_t)dflt, "netloc without a port does not come back as (host, default port)");
+      }
+    }
+  }
   else { fprintf(stderr, "unknown mode %s\n", m.c_str()); return 2; }
   printf("holds on this input\n");
   return 0;
